@@ -420,6 +420,35 @@ def outcomes(body, cs):
                     out.setdefault(variant, []).append(e)
                 elif len(others) == 1:
                     out.setdefault(others[0], []).append(e)
+    # `r.is_ok()` / `is_err()` / `o.is_some()` / `is_none()` on the call's value
+    PRED = {'core::result::Result::is_ok': ('Ok', 'Err'), 'core::result::Result::is_err': ('Err', 'Ok'),
+            'core::option::Option::is_some': ('Some', 'None'), 'core::option::Option::is_none': ('None', 'Some')}
+    for i in body.switches():
+        info = body.switch_info(i)
+        if info['kind'] != 'bool':
+            continue
+        cnd = info['cond']
+        if cnd[0] != 'call' or cnd[2] or cnd[1].declared not in PRED or not cnd[1].args:
+            continue
+        sa = sem(body, cnd[1].args[0])
+        hit_ = sa.kind == 'call' and sa.cs is cs and sa.proj == ()
+        if not hit_ and sa.kind == 'place' and sa.extra == 'multi' and sa.proj == ():
+            hit_ = any(a_.kind == 'call' and a_.cs is cs and a_.proj == () for a_ in sem_alts(body, sa))
+        if not hit_:
+            # a user variable bound once to the call's value (`let result = f(); if result.is_err() ..`)
+            iv = initial_value(body, sa) if sa.kind == 'place' else sa
+            hit_ = iv.kind == 'call' and iv.cs is cs and iv.proj == ()
+        if not hit_:
+            continue
+        yes, no = PRED[cnd[1].declared]
+        t = body.blocks[i]['term']
+        for e in [('e', i, str(v)) for v, _ in t['vals']] + [('e', i, 'otherwise')]:
+            bval = body.edge_bool(e)
+            if bval is None:
+                continue
+            lab = yes if bval else no
+            out.setdefault(lab, []).append(e)
+            out.setdefault('success' if lab in SUCCESS else 'failure', []).append(e)
     return out
 
 
@@ -542,6 +571,13 @@ def exits(body):
                     from_assign(ds[0][1], ds[0][2], depth + 1)
                 return
             sm = sem(body, a)
+            if sm.kind == 'const' and isinstance(sm.extra, dict) and sm.extra.get('k') == 'const':
+                out.append({'node': ('b', i), 'kind': 'const', 'op': sm.extra, 'stmt': s})       # a variable that only ever holds that constant
+                return
+            if sm.kind == 'agg' and isinstance(sm.extra, dict) and 'adt' in sm.extra and not sm.proj and s.get('inl_ret') is None and depth > 0:
+                # (inside an inlined helper) a variable that was bound to a freshly built value, e.g. a parameter
+                out.append({'node': ('b', i), 'kind': 'agg', 'variant': sm.extra['variant'], 'adt': norm(sm.extra['adt']), 'rv': sm.extra, 'stmt': s})
+                return
             out.append({'node': ('b', i), 'kind': 'copy', 'sem': sm, 'op': a, 'stmt': s})
         else:
             out.append({'node': ('b', i), 'kind': 'other', 'rv': rv, 'stmt': s})
@@ -1277,6 +1313,25 @@ def exit_class_from(body, edge, x):
     return None
 
 
+
+def reach_from_outcome(body, cs, e, oc=None):
+    """nodes reachable from edge `e`, which is one of the outcome edges of call `cs`, without taking an outcome edge of
+    the *opposite* class of the same value later on (`if r.is_err() {..}` followed by `r?`: from the is_err edge the
+    Continue arm of the `?` is infeasible).  The pruning stops where `cs` is executed again (a new value)."""
+    oc = oc or outcomes(body, cs)
+    succ_e, fail_e = set(oc.get('success', [])), set(oc.get('failure', []))
+    if e in fail_e:
+        opposite = succ_e - fail_e
+    elif e in succ_e:
+        opposite = fail_e - succ_e
+    else:
+        opposite = set()
+    r1 = body.reach_set(e, avoid=opposite | {cs.node})
+    again = any(cs.node in body.succ.get(n, []) for n in r1 | {e})
+    if again:
+        r1 = r1 | {cs.node} | body.reach_set(cs.node)
+    return r1
+
 def failure_leaves(body, cs, also=()):
     """When `cs` yields its failure variant (Err / None; `also`: further variant names counted as failure) the function
     returns a failure value on every path.  Recognised shapes: the outcome is examined (match, if-let, `?` -- possibly
@@ -1292,7 +1347,7 @@ def failure_leaves(body, cs, also=()):
         bad = []
         n = 0
         for e in fe:
-            rs = body.reach_set(e)
+            rs = reach_from_outcome(body, cs, e, oc)
             for x in exs:
                 if x['node'] in rs or x['node'] == e:
                     n += 1
@@ -1324,7 +1379,7 @@ def success_leaves(body, cs):
         bad = []
         n = 0
         for e in se:
-            rs = body.reach_set(e)
+            rs = reach_from_outcome(body, cs, e, oc)
             for x in exs:
                 if x['node'] in rs or x['node'] == e:
                     n += 1
